@@ -219,7 +219,7 @@ class RDTrajectory :
             return 0
         
         if t>=self.t.get_at(self.nsamples()-1) :
-            return self.nsamples()-1
+            return self._first_sample_at_same_time(self.nsamples()-1)
         
         for i in range(self.nsamples()-1) :
             if t>=self.t.get_at(i) and t<self.t.get_at(i+1):
@@ -227,9 +227,16 @@ class RDTrajectory :
                 dt1 = self.t.get_at(i+1)-t
                 
                 if dt0<=dt1 : 
-                    return i
+                    return self._first_sample_at_same_time(i)
                 else : 
                     return i+1
+
+    def _first_sample_at_same_time(self, i) :
+        # samples recorded at the same time (explicit sample() calls) : ties go to the earliest one.
+        for j in range(i) :
+            if self.t.get_at(j) == self.t.get_at(i) :
+                return j
+        return i
 
     def _get_sample_index_infeq(self, t) :
 
